@@ -146,7 +146,27 @@ def _part2(job):
             before = read()
             cnt['store_ops'] = cnt.get('store_ops', 0) + 1
             try:
-                if r < 0.4 or not model:
+                if rng.random() < (0.5 if not model else 0.07):
+                    # a batch handed over in one call (warm-up injection); it may repeat a minute or contain an older candle:
+                    # the outcome is that of adding its candles one by one
+                    k = rng.randint(2, 6)
+                    tss = [last + step * (i + 1) for i in range(k)]
+                    if rng.random() < 0.6:
+                        j = rng.randrange(1, k)
+                        tss.insert(j, rng.choice(tss[:j]))          # a minute of the batch itself is sent again
+                    if model and rng.random() < 0.3:
+                        tss.insert(rng.randrange(0, len(tss)), rng.choice(sorted(model)))   # a stored older minute
+                    batch = np.array([row(t_) for t_ in tss])
+                    ops.append(('batch' if model else 'batch_into_empty_store', int(tss[0]), len(tss)))
+                    cnt['store_batch_ops'] = cnt.get('store_batch_ops', 0) + 1
+                    if not model:
+                        cnt['store_batch_into_empty'] = cnt.get('store_batch_into_empty', 0) + 1
+                    store.candles.batch_add_candle(batch, direct.EXCHANGE, 'BTC-USDT', tf, with_generation=False)
+                    for b in batch:
+                        t_ = int(b[0])
+                        if t_ in model or not model or t_ > max(model):
+                            model[t_] = b
+                elif r < 0.4 or not model:
                     ts = last + step * rng.choice([1, 1, 1, 2, 5])
                     c = row(ts)
                     ops.append(('new', ts))
